@@ -9,6 +9,7 @@ import (
 	"fmt"
 	"sort"
 	"strconv"
+	"strings"
 
 	"gorm.io/gorm"
 )
@@ -308,25 +309,51 @@ type Node struct {
 	DeletedAt gorm.DeletedAt
 	Children  []Node `gorm:"foreignKey:ParentID;references:ID"`
 	Parent    *Node  `gorm:"foreignKey:ParentID;references:ID"`
+	Boss      *Node  `gorm:"foreignKey:ParentID;references:ID"` // second belongs-to over the same key (several top-level joins)
 }
 
 func (Node) TableName() string { return "c11_node" }
 
 func (p *Node) LSeq() int   { return p.Seq }
 func (p *Node) RID() string { return itoa(p.Seq) }
+
+// desc: a related node with whatever is loaded below it:
+// seq ^P(parent) ^B(boss) <children>
+func (p *Node) desc() string {
+	s := itoa(p.Seq)
+	if p.Parent != nil {
+		s += "^P(" + p.Parent.desc() + ")"
+	}
+	if p.Boss != nil {
+		s += "^B(" + p.Boss.desc() + ")"
+	}
+	if len(p.Children) > 0 {
+		var cs []string
+		for i := range p.Children {
+			cs = append(cs, p.Children[i].desc())
+		}
+		sort.Strings(cs)
+		s += "<" + strings.Join(cs, " ") + ">"
+	}
+	return s
+}
 func (p *Node) Rels() map[string][]string {
 	m := map[string][]string{}
 	for i := range p.Children {
-		m["Children"] = append(m["Children"], itoa(p.Children[i].Seq))
+		m["Children"] = append(m["Children"], p.Children[i].desc())
 	}
 	if p.Parent != nil {
-		m["Parent"] = []string{itoa(p.Parent.Seq)}
+		m["Parent"] = []string{p.Parent.desc()}
+	}
+	if p.Boss != nil {
+		m["Boss"] = []string{p.Boss.desc()}
 	}
 	return sorted(m)
 }
 func (p *Node) Prefill() {
 	p.Children = []Node{{Seq: 99}}
 	p.Parent = &Node{Seq: 99}
+	p.Boss = &Node{Seq: 99}
 }
 
 // ---------------------------------------------------------------------------
